@@ -7,6 +7,8 @@
 (* special-fold class: base n6 (2 variants) and base n6s, which differ     *)
 (* under lower() but not under full case folding (FoldNames; one name or   *)
 (* one bag key at a time).                                                 *)
+(* Dictionary keys (keybindings, NocaseDict items) also include the        *)
+(* UNNAMED key None (KbU).                                                 *)
 (* Values include the EMPTY array (in array-typed objects) and None-valued *)
 (* dictionary items (NULL keybinding), with same-length dictionaries that  *)
 (* differ in a key.                                                        *)
@@ -115,6 +117,7 @@ UQualifierDeclaration ==
 IName(cn, host, ns, kb) == Mk("InstanceName", <<cn, host, ns>>, <<>>, <<kb>>)
 CName(cn, host, ns) == Mk("ClassName", <<cn, host, ns>>, <<>>, <<>>)
 Kb(b, c, v) == En(Nm(b, c), v)
+KbU(v) == En(NoName, v)              \* item under the unnamed key (None)
 KbCfgs ==
   { <<>> }
   \cup { <<Kb("n1", c, v)>> : c \in {0, 1}, v \in UntypedVals }
@@ -132,6 +135,14 @@ KbCfgs ==
   \* keys of the special-fold class
   \cup { <<Kb(n.b, n.c, Sc("int:1", "1"))>> : n \in FoldNames }
   \cup { <<Kb("n6s", 0, Sc("int:2", "2"))>> }
+  \* the unnamed key (None): alone, beside a named key (both orders, other
+  \* case), same value under a named key, NULL value
+  \cup { <<KbU(v)>> : v \in {Sc("str:v1", ""), Sc("str:V1", ""), U8a,
+                             Sc("int:1", "1"), None} }
+  \cup { <<KbU(Sc("str:v1", "")), Kb("n1", 0, Sc("int:1", "1"))>>,
+         <<Kb("n1", 1, Sc("int:1", "1")), KbU(Sc("str:v1", ""))>>,
+         <<Kb("n1", 0, Sc("int:1", "1")), KbU(Sc("str:v2", ""))>>,
+         <<Kb("n1", 0, Sc("str:v1", "")), Kb("n2", 0, Sc("int:1", "1"))>> }
 NameTriples ==
   { <<cn, h, ns>> : cn \in OwnNames, h \in {NoName}, ns \in {NoName} }
   \cup { <<cn, h, ns>> : cn \in OwnFew, h \in OptNames, ns \in {NoName, Nm("n1", 0)} }
@@ -152,6 +163,9 @@ UInstanceName ==
   \cup { IName(cn, NoName, Nm("n1", 0), kb) : cn \in OwnFew, kb \in KbCfgs }
   \cup { IName(Nm("n1", 0), NoName, NoName, <<Kb("n1", c, r)>>) :
            c \in {0, 1}, r \in {ipath1, ipath1v, ipath1m, ipath2} }
+  \* unnamed reference keybinding (VALUE.REFERENCE without KEYBINDING)
+  \cup { IName(Nm("n1", 0), NoName, NoName, <<KbU(r)>>) :
+           r \in {ipath1, ipath1v, ipath1m} }
 
 (* ---- Property / Parameter ---- *)
 PAt1 == <<"s:uint8", "none", "False", "none", "none">>
@@ -282,6 +296,7 @@ UNocaseDict ==
   \cup { NDict(<<Kb("n1", c, v)>>) : c \in {0, 1}, v \in {None, q1, q1v, q1m} }
   \cup { NDict(<<Kb("n1", 0, None), Kb("n2", 0, q1)>>),
          NDict(<<Kb("n2", 1, q1v), Kb("n1", 1, None)>>) }
+  \cup { NDict(<<KbU(v)>>) : v \in {ipath1, ipath1v, ipath1m} }
 
 Kinds == {"InstanceName", "ClassName", "Instance", "Class", "Property",
           "Method", "Parameter", "Qualifier", "QualifierDeclaration",
